@@ -359,7 +359,11 @@ func genC20(t *rapid.T) *C20Case {
 			firstVal := rapid.SampledFrom([][]string{{"1"}, {"RE_CONST"}, {"FOO", "+", "1"}, {"RE_CONST", "+", "1"}}).Draw(t, "firstval")
 			f.Tops = append([]*Top{{K: "const", Const: &Const{Name: "RE_CONST", Val: firstVal}}}, f.Tops...)
 			pos := rapid.IntRange(1, len(f.Tops)).Draw(t, "constpos")
-			top := &Top{K: "const", Const: &Const{Name: "RE_CONST", Val: []string{"2"}}, Inj: true}
+			second := []string{"2"}
+			if rapid.IntRange(0, 2).Draw(t, "samevalue") == 0 {
+				second = append([]string{}, firstVal...) // a redefinition is a redefinition, also with the same value
+			}
+			top := &Top{K: "const", Const: &Const{Name: "RE_CONST", Val: second}, Inj: true}
 			f.Tops = append(f.Tops[:pos], append([]*Top{top}, f.Tops[pos:]...)...)
 			c.Kind = kind
 		case "text-name-clash", "movement-name-clash", "label-clash-sublabel", "label-clash-text":
@@ -379,6 +383,9 @@ func genC20(t *rapid.T) *C20Case {
 				case "label-clash-sublabel":
 					if m.genSubLabel(l) {
 						names = append(names, l)
+					}
+					if isScriptName(f, l) {
+						names = append(names, l) // the entry label is a generated label of its script too
 					}
 				case "label-clash-text":
 					if strings.Contains(l, "_Text_") && isHoistedLabel(l) {
@@ -410,6 +417,9 @@ func genC20(t *rapid.T) *C20Case {
 			case "label-clash-sublabel":
 				// the label goes first in the body of the script that owns the sub-label
 				mm := subLabelRe.FindStringSubmatch(name)
+				if isScriptName(f, name) {
+					mm = []string{name, name}
+				}
 				_, blocks := EntryBlocks(f)
 				b := blocks[mm[1]]
 				if b == nil {
